@@ -19,7 +19,7 @@ def enc(o):
         return o
     if isinstance(o, float):
         if math.isnan(o):
-            return {"$f": "nan"}
+            return {"$f": "-nan" if math.copysign(1.0, o) < 0 else "nan"}
         if math.isinf(o):
             return {"$f": "inf" if o > 0 else "-inf"}
         if o == 0 and math.copysign(1, o) < 0:
@@ -48,7 +48,7 @@ def enc(o):
     return {"$repr": repr(o)[:200]}
 
 
-_F = {"nan": float("nan"), "inf": float("inf"), "-inf": float("-inf"), "-0": -0.0}
+_F = {"nan": float("nan"), "-nan": -float("nan"), "inf": float("inf"), "-inf": float("-inf"), "-0": -0.0}
 
 
 def dec(o):
